@@ -850,8 +850,16 @@ def isDict : PyVal → Bool
   | .dict _ => true
   | _ => false
 
-def isList : PyVal → Bool
-  | .list _ => true
+/-- a record as `ExtraFiles.add` stores it: a dict with a string under `file`, and `size` and `checksums` present -/
+def isExtraRec : PyVal → Bool
+  | .dict r =>
+    (match lookup r (lit "file") with | some (.str _) => true | _ => false)
+    && (lookup r (lit "size")).isSome && (lookup r (lit "checksums")).isSome
+  | _ => false
+
+/-- a list of such records -/
+def isRecList : PyVal → Bool
+  | .list l => l.all isExtraRec
   | _ => false
 
 /-- the decidable form of `EntryOK` -/
@@ -876,7 +884,7 @@ theorem EntryOK_of_entryOK (x : PyVal) (h : entryOK x = true) : EntryOK x := by
 
 def RpmsShape (s : PyVal) : Prop := shapeAt 3 isDict s = true
 def ModulesShape (s : PyVal) : Prop := shapeAt 3 entryOK s = true
-def ExtraShape (s : PyVal) : Prop := shapeAt 1 (allVals isList) s = true
+def ExtraShape (s : PyVal) : Prop := shapeAt 1 (allVals isRecList) s = true
 
 theorem rpms_shape_step (s : PyVal) (a : RpmsArgs) (h : RpmsShape s) : RpmsShape (Rpms.add s a).1 := by
   unfold Rpms.add
@@ -903,13 +911,24 @@ theorem extra_shape_step (s : PyVal) (a : ExtraArgs) (h : ExtraShape s) : ExtraS
   cases hc : extraCheck a with
   | error e => exact h
   | ok r =>
-    refine setPathS_shape _ (allVals isList) rfl (fun x hx => ?_) [a.variant] s h
+    refine setPathS_shape _ (allVals isRecList) rfl (fun x hx => ?_) [a.variant] s h
     cases x <;> simp [allVals] at hx
     rename_i am
     cases hm : (lookup am a.arch).getD (.list []) with
     | list l =>
       simp only [extraLeaf, hm, allVals]
-      exact all_put isList am a.arch _ (by simpa using hx) rfl
+      apply all_put isRecList am a.arch _ (by simpa using hx)
+      have hl : l.all isExtraRec = true := by
+        cases hlk : lookup am a.arch with
+        | none => rw [hlk] at hm; simp only [Option.getD_none] at hm; cases hm; rfl
+        | some z =>
+          rw [hlk] at hm
+          simp only [Option.getD_some] at hm
+          have := all_of_lookup isRecList am a.arch z (by simpa using hx) hlk
+          rw [hm] at this
+          exact this
+      have hr : isExtraRec r = true := by rw [(C12_extra_plan a r hc).2.2.2.2.2]; rfl
+      simp only [isRecList, List.all_append, hl, List.all_cons, hr, List.all_nil, Bool.and_self]
     | _ =>
       exfalso
       cases hlk : lookup am a.arch with
@@ -917,7 +936,7 @@ theorem extra_shape_step (s : PyVal) (a : ExtraArgs) (h : ExtraShape s) : ExtraS
       | some z =>
         rw [hlk] at hm
         simp only [Option.getD_some] at hm
-        have := all_of_lookup isList am a.arch z (by simpa using hx) hlk
+        have := all_of_lookup isRecList am a.arch z (by simpa using hx) hlk
         rw [hm] at this
         cases this
 
@@ -971,7 +990,7 @@ theorem C12_extra_outcome (s : PyVal) (hs : ExtraShape s) (a : ExtraArgs) :
   | error e => rfl
   | ok r =>
     rw [hc] at hstep
-    obtain ⟨x, hx, hd⟩ := shape_leaf (allVals isList) rfl [a.variant] s hs
+    obtain ⟨x, hx, hd⟩ := shape_leaf (allVals isRecList) rfl [a.variant] s hs
     rw [(setPathS_leaf _ _ s x hx).2]
     cases x <;> simp [allVals] at hd
     rename_i am
@@ -984,7 +1003,7 @@ theorem C12_extra_outcome (s : PyVal) (hs : ExtraShape s) (a : ExtraArgs) :
       | some z =>
         rw [hlk] at hm
         simp only [Option.getD_some] at hm
-        have := all_of_lookup isList am a.arch z (by simpa using hd) hlk
+        have := all_of_lookup isRecList am a.arch z (by simpa using hd) hlk
         rw [hm] at this
         cases this
 
@@ -1034,6 +1053,121 @@ theorem C12_modules_content_applies (h : List ModulesArgs) (a : ModulesArgs) (p 
   rw [← this]
   exact EntryOK_of_entryOK x hd
 
+/-! ## dump_for_tree -/
+
+/-- one entry of the per-tree file: the stored record with the base path stripped from `file` -/
+def stripItem (b : Str) : PyVal → PyVal
+  | .dict r =>
+    match lookup r (lit "file") with
+    | some (.str f) =>
+      .dict [(lit "file", .str (relativeTo f b)), (lit "size", (lookup r (lit "size")).getD .none),
+             (lit "checksums", (lookup r (lit "checksums")).getD .none)]
+    | _ => .none
+  | _ => .none
+
+def treeDoc (data : List PyVal) : PyVal :=
+  .dict [(lit "header", .dict [(lit "version", .str (lit "1.0"))]), (lit "data", .list data)]
+
+theorem treeItem_rec (b : Str) (item : PyVal) (h : isExtraRec item = true) : treeItem b item = .ok (stripItem b item) := by
+  cases item <;> simp [isExtraRec] at h
+  rename_i r
+  obtain ⟨⟨h1, h2⟩, h3⟩ := h
+  cases hf : lookup r (lit "file") with
+  | none => rw [hf] at h1; simp at h1
+  | some fv =>
+    rw [hf] at h1
+    cases fv <;> simp at h1
+    rename_i f
+    obtain ⟨sz, hsz⟩ := Option.isSome_iff_exists.mp h2
+    obtain ⟨cs, hcs⟩ := Option.isSome_iff_exists.mp h3
+    simp [treeItem, getItem, stripItem, hf, hsz, hcs]
+
+theorem mapExcept_recs (b : Str) (l : List PyVal) (h : l.all isExtraRec = true) :
+    mapExcept (treeItem b) l = .ok (l.map (stripItem b)) := by
+  induction l with
+  | nil => rfl
+  | cons x xs ih =>
+    simp only [List.all_cons, Bool.and_eq_true] at h
+    simp [mapExcept, treeItem_rec b x h.1, ih h.2]
+
+theorem C12_dump_for_tree_aux (top : Kvs) (v a b : Str) (hs : shapeAt 1 (allVals isRecList) (.dict top) = true) :
+    (∀ l, getPath (.dict top) [v, a] = some (.list l) →
+        dumpForTreeDoc (.dict top) v a b = .ok (treeDoc (l.map (stripItem b))))
+    ∧ (getPath (.dict top) [v, a] = none → dumpForTreeDoc (.dict top) v a b = .error .keyError)
+    ∧ (∀ x, getPath (.dict top) [v, a] = some x → ∃ l, x = .list l) := by
+  have hs' : top.all (fun kv => allVals isRecList kv.2) = true := hs
+  have hav : ∀ av, lookup top v = some av → ∃ am, av = .dict am ∧ am.all (fun kv => isRecList kv.2) = true := by
+    intro av hlk
+    have := all_of_lookup (allVals isRecList) top v av hs' hlk
+    cases av <;> simp [allVals] at this
+    exact ⟨_, rfl, by simpa using this⟩
+  refine ⟨?_, ?_, ?_⟩
+  · intro l hl
+    rw [getPath_dict_cons] at hl
+    cases hlk : lookup top v with
+    | none => rw [hlk] at hl; cases hl
+    | some av =>
+      obtain ⟨am, rfl, ham⟩ := hav av hlk
+      rw [hlk] at hl
+      simp only [Option.bind_some] at hl
+      rw [getPath_dict_cons] at hl
+      cases hla : lookup am a with
+      | none => rw [hla] at hl; cases hl
+      | some z =>
+        rw [hla] at hl
+        simp only [Option.bind_some, getPath_nil, Option.some.injEq] at hl
+        subst hl
+        have hrec := all_of_lookup isRecList am a _ ham hla
+        simp only [dumpForTreeDoc, getItem, hlk, hla, mapExcept_recs b l hrec]
+        rfl
+  · intro hn
+    rw [getPath_dict_cons] at hn
+    cases hlk : lookup top v with
+    | none => simp [dumpForTreeDoc, getItem, hlk]
+    | some av =>
+      obtain ⟨am, rfl, ham⟩ := hav av hlk
+      rw [hlk] at hn
+      simp only [Option.bind_some] at hn
+      rw [getPath_dict_cons] at hn
+      cases hla : lookup am a with
+      | none => simp [dumpForTreeDoc, getItem, hlk, hla]
+      | some z => rw [hla] at hn; simp [getPath_nil] at hn
+  · intro x hx
+    rw [getPath_dict_cons] at hx
+    cases hlk : lookup top v with
+    | none => rw [hlk] at hx; cases hx
+    | some av =>
+      obtain ⟨am, rfl, ham⟩ := hav av hlk
+      rw [hlk] at hx
+      simp only [Option.bind_some] at hx
+      rw [getPath_dict_cons] at hx
+      cases hla : lookup am a with
+      | none => rw [hla] at hx; cases hx
+      | some z =>
+        rw [hla] at hx
+        simp only [Option.bind_some, getPath_nil, Option.some.injEq] at hx
+        subst hx
+        have hrec := all_of_lookup isRecList am a _ ham hla
+        cases z <;> simp [isRecList] at hrec
+        exact ⟨_, rfl⟩
+
+/-- **`dump_for_tree`** on any manifest built by `ExtraFiles.add`: for a variant/arch that has files the document
+is `{"header": {"version": "1.0"}, "data": [...]}` with one entry per stored record, in order, each with the base
+path stripped from `file` by `_relative_to` (see `C12_relative`) and `size`/`checksums` unchanged; for a
+variant/arch without files the call raises `KeyError`. -/
+theorem C12_dump_for_tree (h : List ExtraArgs) (v a b : Str) :
+    (∀ l, getPath (runExtra empty h) [v, a] = some (.list l) →
+        dumpForTreeDoc (runExtra empty h) v a b = .ok (treeDoc (l.map (stripItem b))))
+    ∧ (getPath (runExtra empty h) [v, a] = none → dumpForTreeDoc (runExtra empty h) v a b = .error .keyError)
+    ∧ (∀ x, getPath (runExtra empty h) [v, a] = some x → ∃ l, x = .list l) := by
+  have hs := C12_extra_reachable h
+  generalize runExtra empty h = s at hs
+  unfold ExtraShape at hs
+  cases s
+  case dict top =>
+    skip
+    exact C12_dump_for_tree_aux top v a b hs
+  all_goals exact absurd hs (by simp [shapeAt, allVals])
 /-! ## Headline: any history, any further call -/
 
 /-- **C12 for `Rpms.add`** — after ANY history of calls, a further call with ANY arguments either is refused
